@@ -2,53 +2,212 @@ package main
 
 import (
 	"verif/internal/effects"
+	"verif/internal/kinds"
+	"verif/internal/load"
 	"verif/internal/report"
 	"verif/internal/scandfa"
 )
 
-// scan rebuilds the scanner's transition system for the tree in dir (cached).
-func (c *Ctx) scan(dir string) *scandfa.Analysis {
+// scanOf rebuilds the transition system of the scanner package rel in the tree dir (cached).
+func (c *Ctx) scanOf(dir, rel string) *scandfa.Analysis {
 	if c.scans == nil {
 		c.scans = map[string]*scandfa.Analysis{}
 	}
-	if a, ok := c.scans[dir]; ok {
+	key := dir + "|" + rel
+	if a, ok := c.scans[key]; ok {
 		return a
 	}
-	c.scans[dir] = nil
+	c.scans[key] = nil
 	p, err := c.Program(dir, false)
 	if err != nil {
 		c.Fail("scanner", "load", "load: "+err.Error())
 		return nil
 	}
-	m, err := scandfa.Build(p, "internal/scanner")
+	m, err := scandfa.Build(p, rel)
 	if err != nil {
-		c.Fail("scanner", "machine", "scanner: "+err.Error())
+		c.Fail("scanner", "machine:"+rel, "scanner: "+err.Error())
 		return nil
 	}
 	a := scandfa.Analyse(m)
-	c.scans[dir] = a
+	c.scans[key] = a
 	return a
+}
+
+func (c *Ctx) scan(dir string) *scandfa.Analysis { return c.scanOf(dir, "internal/scanner") }
+
+type scanRule func(a *scandfa.Analysis) []*report.RuleResult
+
+var scanRules = map[string]scanRule{
+	"token-rules": func(a *scandfa.Analysis) []*report.RuleResult {
+		pp, ff, rs, nd := a.TokenRules()
+		return []*report.RuleResult{pp, ff, rs, nd}
+	},
+	"newline-action":   func(a *scandfa.Analysis) []*report.RuleResult { return []*report.RuleResult{a.NewlineAction()} },
+	"newline-siblings": func(a *scandfa.Analysis) []*report.RuleResult { return []*report.RuleResult{a.NewlineSiblings()} },
+	"case-fold":        func(a *scandfa.Analysis) []*report.RuleResult { return []*report.RuleResult{a.CaseFold("php")} },
+	"trivia-stay":      func(a *scandfa.Analysis) []*report.RuleResult { return []*report.RuleResult{a.TriviaStay()} },
+	"trivia-siblings":  func(a *scandfa.Analysis) []*report.RuleResult { return []*report.RuleResult{a.TriviaSiblings()} },
+	"idx-guard":        func(a *scandfa.Analysis) []*report.RuleResult { return []*report.RuleResult{a.IdxGuard()} },
+	"progress":         func(a *scandfa.Analysis) []*report.RuleResult { return []*report.RuleResult{a.Progress()} },
+}
+
+// scanRun runs scanner rule groups on the scanok/scanbad fixtures and on /repo.
+func (c *Ctx) scanRun(groups ...string) {
+	if !c.NoFixtures {
+		dir := c.Verif + "/testdata/fixture/mini"
+		ok, bad := c.scanOf(dir, "internal/scanok"), c.scanOf(dir, "internal/scanbad")
+		if ok == nil || bad == nil {
+			c.Run.FixtureFails = append(c.Run.FixtureFails, "mini: scanner fixtures could not be analysed")
+		} else {
+			for _, g := range groups {
+				good, broken := scanRules[g](ok), scanRules[g](bad)
+				for i := range good {
+					good[i].Merge(broken[i], "bad:")
+					c.compareFixture("mini", good[i].Rule, dir, good[i])
+				}
+			}
+		}
+	}
+	a := c.scan(c.Repo)
+	if a == nil {
+		return
+	}
+	for _, g := range groups {
+		for _, r := range scanRules[g](a) {
+			c.Add(r)
+		}
+	}
+}
+
+// ssaScan runs the SSA-based scanner rules.
+func (c *Ctx) ssaScan(rules ...string) {
+	for _, r := range rules {
+		switch r {
+		case "pred-pure":
+			c.Fixture("mini", "pred-pure", true, func(p *load.Program, tb *kinds.Table) *report.RuleResult {
+				w, _ := effects.NewWorld(p)
+				res := effects.PredPure(w, "internal/scanok")
+				res.Merge(effects.PredPure(w, "internal/scanbad"), "bad:")
+				return res
+			})
+		case "buf-readonly":
+			c.Fixture("mini", "buf-readonly", true, func(p *load.Program, tb *kinds.Table) *report.RuleResult {
+				w, _ := effects.NewWorld(p)
+				return effects.BufReadonly(w, "internal/scanner", "internal/badcb", "internal/scanok")
+			})
+		}
+	}
+	p, _, ok := c.RepoProgram(true)
+	if !ok {
+		return
+	}
+	w := c.world(p, "scanner-helpers")
+	if w == nil {
+		return
+	}
+	for _, r := range rules {
+		switch r {
+		case "pred-pure":
+			c.Add(effects.PredPure(w, "internal/scanner"))
+		case "buf-readonly":
+			c.Add(effects.BufReadonly(w, parsingPkgs...))
+		case "scanner-helpers":
+			c.Add(effects.ScannerHelpers(w, "internal/scanner"))
+		case "cb-guard":
+			c.Add(effects.CbGuard(w))
+		}
+	}
 }
 
 func init() {
 	properties["SC"] = &Property{ // development aid: every scanner rule at once (not registered in the manifest)
 		Level: "other", Engine: "scandfa",
 		Run: func(c *Ctx) {
-			a := c.scan(c.Repo)
-			if a == nil {
-				return
-			}
-			pp, ff, rs, nd := a.TokenRules()
-			for _, r := range []*report.RuleResult{pp, ff, rs, nd, a.NewlineAction(), a.NewlineSiblings(), a.CaseFold("php"), a.TriviaStay(), a.IdxGuard(), a.Progress()} {
-				c.Add(r)
-			}
-			if p, _, ok := c.RepoProgram(true); ok {
-				if w := c.world(p, "scanner-helpers"); w != nil {
-					c.Add(effects.ScannerHelpers(w, "internal/scanner"))
-					c.Add(effects.PredPure(w, "internal/scanner"))
-					c.Add(effects.BufReadonly(w, parsingPkgs...))
-				}
-			}
+			c.scanRun("token-rules", "newline-action", "newline-siblings", "case-fold", "trivia-stay", "trivia-siblings", "idx-guard", "progress")
+			c.ssaScan("pred-pure", "buf-readonly", "scanner-helpers")
+		},
+	}
+}
+
+var scanTrusted = append([]string{"the reconstruction of the scanner's transition system from scanner.go in internal/scandfa (blocks, decision evaluator, symbolic action interpreter); any statement outside its vocabulary is undecided and fails"}, baseTrusted...)
+
+func init() {
+	delete(notApplicable, "C04")
+	properties["C04"] = &Property{
+		Level:     "other",
+		LevelText: "The compiled scanner is rebuilt as a transition system (531 states x 256 bytes with three-valued evaluation of the condition predicates; every action block interpreted symbolically over the cursor variables p, ts, te; a dataflow over the block graph bounds p-ts and te-ts) and the structural clauses of the property are decided on it for every state and every action: (pos-pairing) every returned token has its position recorded from the same [ts,te) its text is taken from; (ff-span) every free-floating token takes value and position from the same bytes; (resume-at-te) scanning always resumes exactly where the previous token or free-floating token ended, so tokens neither overlap nor leave gaps; (no-drop) every consumed byte range is returned, recorded as free-floating, or reported as an error; (newline-action) every transition that consumes LF or CR runs the action that records the line start; (scanner-helpers) setTokenPosition / addFreeFloatingToken / NewLexer / the tail of Lex compute offsets, lines and values from exactly those variables; (pred-pure) transition conditions do not move the cursor; leaf nodes carry their own token's text (leaf-value) and pool objects are never handed out twice (pool-typestate). Not decided: the arithmetic of NewLines.GetLine (that the recorded line starts yield the true 1-based line for every terminator mix), and classification of comments vs doc-comments beyond the constant passed.",
+		LevelNote: "pred-pure is violated by the flexible-heredoc end test (known finding).",
+		Technique: "static analysis: transition-system reconstruction of the generated scanner, symbolic interpretation of action blocks, interval dataflow on cursor offsets; SSA provenance checks of the helper functions; abstract interpretation of grammar actions (leaf values); zone-domain typestate of the pools",
+		Engine:    "scandfa",
+		Explanation: "pos-pairing, ff-span, resume-at-te, no-drop, newline-action, trivia-stay on internal/scanner/scanner.go; scanner-helpers, pred-pure (SSA); leaf-value (both grammars); pool-typestate.",
+		TrustedBase: scanTrusted,
+		Floors: []report.Floor{
+			{Rule: "pos-pairing", What: "token-blocks", Min: 110},
+			{Rule: "ff-span", What: "ff-blocks", Min: 25},
+			{Rule: "resume-at-te", What: "boundary-blocks", Min: 160},
+			{Rule: "no-drop", What: "boundary-blocks", Min: 160},
+			{Rule: "newline-action", What: "consuming-edges", Min: 150},
+			{Rule: "scanner-helpers", What: "facts", Min: 12},
+			{Rule: "pred-pure", What: "predicates", Min: 5},
+			{Rule: "leaf-value", What: "leaves", Min: 190},
+		},
+		Run: func(c *Ctx) {
+			defer c.cleanup()
+			c.scanRun("token-rules", "newline-action", "trivia-stay")
+			c.ssaScan("scanner-helpers", "pred-pure")
+			c.flows_("leaf-value")
+			c.poolRule()
+		},
+	}
+	delete(notApplicable, "C08")
+	properties["C08"] = &Property{
+		Level:     "other",
+		LevelText: "Decided on the reconstructed transition system of the scanner, for every state: LF and CR are both accepted or both end the token, blank and tab likewise, and wherever a blank continues a token a line terminator does too (newline-siblings; the two places where PHP itself allows blanks only - inside casts and after <<< - are a reviewed pattern); recording whitespace or a comment as free-floating never changes the scanner state (trivia-stay); every machine that skips whitespace also skips comments (trivia-siblings); no grammar action or parser function makes a decision that reads free-floating tokens or positions (grammar-ignores-trivia). Not decided: token-pair interactions where trivia is part of a longer token (`yield from`, `?>` swallowing one newline, `;` whitespace `?>`), for all programs.",
+		LevelNote: "Four machines (property, halt_compiller_*) skip whitespace but not comments: known findings.",
+		Technique: "static analysis: per-state sibling comparison of byte classes on the reconstructed scanner automaton; symbolic interpretation of action blocks; typed-AST scan of parser conditions",
+		Engine:    "scandfa",
+		Explanation: "newline-siblings, trivia-stay, trivia-siblings on the scanner; grammar-ignores-trivia on internal/php5 and internal/php7.",
+		TrustedBase: scanTrusted,
+		Floors: []report.Floor{
+			{Rule: "newline-siblings", What: "states", Min: 500},
+			{Rule: "trivia-stay", What: "trivia-blocks", Min: 15},
+			{Rule: "trivia-siblings", What: "whitespace-skipping-machines", Min: 5},
+			{Rule: "grammar-ignores-trivia", What: "conditions", Min: 100},
+		},
+		Run: func(c *Ctx) {
+			defer c.cleanup()
+			c.scanRun("newline-siblings", "trivia-stay", "trivia-siblings")
+			c.flowRule("grammar-ignores-trivia", flowRules["grammar-ignores-trivia"])
+		},
+	}
+	delete(notApplicable, "C01")
+	properties["C01"] = &Property{
+		Level:     "other",
+		LevelText: "Structural necessary conditions, each decided for all code it applies to: (buf-readonly) no instruction of the parsing packages writes an element of a byte slice that is not local storage, nor hands one to a callee outside the reviewed read-only set - this clause ('the caller's buffer is left unchanged') is decided completely; (cb-guard) every call of the optional error callback is dominated by a nil test; (idx-guard) every index or slice expression on the input buffer, the scanner's call stack and the line table in internal/scanner is implied in range by its dominating conditions plus the scanner invariants (0 <= ts <= te <= len, p < len inside Lex, the dataflow bounds on p-ts and te-ts), by a small linear prover; (progress) the graph of token steps that may consume nothing is acyclic, so the scanner advances by at least one byte per bounded number of steps and Lex returns at most len+1 tokens; (pred-pure) transition conditions do not move the cursor; (nil-in-list, linear) grammar actions cannot put nil into a list or index a possibly-empty list; the parser driver is the stock goyacc driver, whose error recovery shifts `error`, discards a token or aborts (tables-sync/skeleton-sync). Not decided: time proportional to input length beyond the progress argument (per-token work such as NewLines.GetLine's backward scan), Go stack depth on deeply nested input, memory.",
+		LevelNote: "Known findings: the new_line action's look-ahead after a CR at end of input (81 generated copies), two scanner stalls (html '<', heredoc '$$'), and the cursor-moving heredoc predicate. Three further index panics found by idx-guard were repaired in /repo.",
+		Technique: "static analysis: SSA effect analysis (buffer writes, guard dominance), linear bound proving over dominating conditions, transition-system reconstruction of the scanner with interval dataflow and replay refinement for progress",
+		Engine:    "scandfa",
+		Explanation: "buf-readonly, cb-guard (SSA); idx-guard, progress on the reconstructed scanner; pred-pure; nil-in-list; tables-sync / skeleton-sync.",
+		Assumptions: []string{"PHPMODE: transition predicates run in machines entered after an open tag, so lex.p >= 2 there (look-behind data[p-1], data[p-2])"},
+		TrustedBase: scanTrusted,
+		Floors: []report.Floor{
+			{Rule: "buf-readonly", What: "functions", Min: 400},
+			{Rule: "cb-guard", What: "calls", Min: 4},
+			{Rule: "idx-guard", What: "sites", Min: 1700},
+			{Rule: "progress", What: "token-steps", Min: 270},
+			{Rule: "pred-pure", What: "predicates", Min: 5},
+			{Rule: "tables-sync", What: "skeleton-funcs", Min: 16},
+		},
+		Run: func(c *Ctx) {
+			defer c.cleanup()
+			c.scanRun("idx-guard", "progress")
+			c.ssaScan("buf-readonly", "pred-pure", "cb-guard")
+			c.Fixture("mini", "cb-guard", true, func(p *load.Program, tb *kinds.Table) *report.RuleResult {
+				w, _ := effects.NewWorld(p)
+				return effects.CbGuard(w)
+			})
+			c.grammarRule("tables-sync", syncRule)
+			c.flows_("nil-in-list")
 		},
 	}
 }
